@@ -354,6 +354,7 @@ impl StorageEngine {
         if let Some(stored_value) = shard_guard.data.get_mut(key) {
             stored_value.metadata.set_expiration(expires_in);
             shard_guard.expiring_keys.insert(key.to_vec(), Instant::now() + expires_in);
+            shard_guard.mark_modified(key);
             Ok(true)
         } else {
             Ok(false)
@@ -470,6 +471,14 @@ impl StorageEngine {
             // Calculate memory to free from this shard
             for (key, stored_value) in shard_guard.data.iter() {
                 total_memory_to_free += self.calculate_value_size(key, &stored_value.value);
+            }
+            
+            // Every key that goes away counts as modified for WATCH
+            if shard_guard.watch_tracker.has_active_watchers() {
+                let keys: Vec<Key> = shard_guard.data.keys().cloned().collect();
+                for key in &keys {
+                    shard_guard.mark_modified(key);
+                }
             }
             
             shard_guard.data.clear();
@@ -2017,6 +2026,7 @@ impl StorageEngine {
             let mut shard_guard = old_shard.write().unwrap();
             if let Some(stored_value) = shard_guard.data.remove(old_key) {
                 shard_guard.data.insert(new_key.clone(), stored_value);
+                shard_guard.mark_modified(old_key);
                 shard_guard.mark_modified(&new_key);
                 Ok(())
             } else {
@@ -2042,6 +2052,7 @@ impl StorageEngine {
             // Move the value between shards
             if let Some(stored_value) = old_guard.data.remove(old_key) {
                 new_guard.data.insert(new_key.clone(), stored_value);
+                old_guard.mark_modified(old_key);
                 new_guard.mark_modified(&new_key);
                 Ok(())
             } else {
@@ -2098,6 +2109,7 @@ impl StorageEngine {
             if stored_value.metadata.expires_at.is_some() {
                 stored_value.metadata.clear_expiration();
                 shard_guard.expiring_keys.remove(key);
+                shard_guard.mark_modified(key);
                 Ok(true)
             } else {
                 Ok(false)
